@@ -724,3 +724,234 @@ Theorem C01_file_level_closed : forall (sort : list Model.Rearranger.point -> li
      serve RDB2 st q (LocOk L) ecs max = OReply x -> response_refines L (declared_file o serial f) n q ecs max x).
 Proof. exact file_level_closed. Qed.
 Print Assumptions C01_file_level_closed.
+
+(* ==================================================================================
+   C01_file_level_client: the client location is no longer an oracle input.
+   [handle lb b dbl st q cq enc max] (Model/Handler.v) is the handler with its OWN location lookup:
+   FindLocation (Model/Ecs.find_client_location: ECS map '8', then resolver map 'M'; FindMap and
+   GetLocationByMap of the driver [lb] over the database, Model/Location.v) and then serve (Model/Serve.v)
+   for the location id FindLocation returned, echoing the option it returned - both over the SAME
+   compiled database ([dbl]: key -> stored bytes, what the location lookup reads; [st]: key -> rows,
+   what the answer readers read).  [q] / [cq] are the two views of the request (question, EDNS version /
+   OPT options, resolver address).
+   The statement: the reply refines Spec/Answer.spec_response for the records the file DECLARES and
+   the location Spec/ClientLocation.client_view prescribes for this client, read off the file's
+   M / 8 / % lines (exact-name map before nearest wildcard map; ECS longest-prefix match in the family
+   of the client prefix, else resolver longest-prefix match; none: \000\000 = untagged records only):
+     [view_of rs n rip cq]     = that location as two bytes
+     [echo_view rs n enc cq]   = the request's ECS option with the scope Spec/ClientLocation.scope_view
+   for every database the C07 compilers produce from the text, under the real codec configuration of
+   each backend (Model/Accum.v).  Guards, all on the data file and decidable unless said otherwise:
+     wf_file          every line parses and passes Spec/Declared.dns_okb
+     loc_file_okb     % lines: 16-byte address, length <= 128, two-byte location and map ids; M / 8
+                      lines: labels <= 63 bytes, two-byte map id; no '!' line (subnets as % lines); no
+                      record tagged with the location \000% (its v1 key would fall among the subnet keys)
+     maps_once        no two M / 8 lines for the same (kind, name, wildcard): with two, FindMap returns the
+                      first chunk / first CDB record, which depends on the compiler's schedule
+     wf_subnets       C03's guard for every map - it excludes finding F20 (IPv6 subnets of length 1..95
+                      containing ::ffff:0:0; needed for RocksDB only, kept for all three for one statement)
+     subnet_locs_okb  (v1 keys only) no % line names one of the seven marker locations (FileLevel.loc_okb)
+     kvs_ok           (C07) values shorter than 2^32 bytes, on the lines' records
+     wf_view          (C01) a visible SOA comes with a visible NS, for the location at hand
+   and on the request: wire-valid name, no OPT or EDNS version 0 (BADVERS is findings F21 / F22 and does
+   not look at the location), a resolver address below 2^128, ECS options as miekg/dns unpacks them.
+   ================================================================================== *)
+From DnsV Require Model.Location Model.Ecs Model.Handler Spec.ClientLocation Proofs.Ecs Proofs.Rearranger Proofs.LinkRdbDb.
+From DnsV Require Import Proofs.ClientDbFacts Proofs.ClientLink Proofs.ClientFileLevel.
+
+Theorem C01_file_level_client_cdb : forall o serial f,
+  wf_file o serial f = true -> loc_file_okb o serial f = true -> maps_once (parsed o serial f) ->
+  (forall m, Proofs.Location.wf_subnets (Spec.ClientLocation.declared_subnets (parsed o serial f) m)) ->
+  forall (q : query) (cq : Model.Ecs.query) (n : name) rip (enc : Model.Ecs.ecs -> ecsval) max,
+  wf_name n -> nlen (pack n) <= 255 -> lower_bytes (q_name q) = pack n ->
+  (q_edns q = None \/ q_edns q = Some 0) ->
+  Model.Ecs.q_rip cq = Some rip -> rip < Base.Ip.two128 ->
+  (forall e, Model.Ecs.query_ecs cq = Some e -> Proofs.Ecs.wf_ecs e) ->
+  wf_view (view_of (parsed o serial f) n rip cq) (declared_file o serial f) = true ->
+  forall sep stream kvs st x,
+  kvs_ok (flat_map (recs_of bytes (conv_line o serial false false)) f) ->
+  subnet_locs_okb o serial f = true ->
+  Permutation stream (records bytes (conv_line o serial false false) (accum_cdb o serial) [Model.Preproc.feature_kv false] f) ->
+  compile_cdb bytes (conv_line o serial false false) f stream = Ok kvs -> (forall k, get st k = vals_of k kvs) ->
+  Model.Handler.handle (Model.Location.BCdb sep) CDB kvs st q cq enc max = OReply x ->
+  response_refines (view_of (parsed o serial f) n rip cq) (declared_file o serial f) n q
+                   (echo_view (parsed o serial f) n enc cq) max x.
+Proof. exact file_level_client_cdb. Qed.
+Print Assumptions C01_file_level_client_cdb.
+
+Theorem C01_file_level_client_rdb_v1 : forall sort, Proofs.Rearranger.sort_spec sort -> forall o serial f,
+  wf_file o serial f = true -> loc_file_okb o serial f = true -> maps_once (parsed o serial f) ->
+  (forall m, Proofs.Location.wf_subnets (Spec.ClientLocation.declared_subnets (parsed o serial f) m)) ->
+  forall (q : query) (cq : Model.Ecs.query) (n : name) rip (enc : Model.Ecs.ecs -> ecsval) max,
+  wf_name n -> nlen (pack n) <= 255 -> lower_bytes (q_name q) = pack n ->
+  (q_edns q = None \/ q_edns q = Some 0) ->
+  Model.Ecs.q_rip cq = Some rip -> rip < Base.Ip.two128 ->
+  (forall e, Model.Ecs.query_ecs cq = Some e -> Proofs.Ecs.wf_ecs e) ->
+  wf_view (view_of (parsed o serial f) n rip cq) (declared_file o serial f) = true ->
+  forall db st dbl x,
+  kvs_ok (flat_map (recs_of bytes (conv_line o serial false false)) f) ->
+  subnet_locs_okb o serial f = true ->
+  rdb_compilation bytes (conv_line o serial true false) (accum_rdb sort o serial) [Model.Preproc.feature_kv false] f db ->
+  rdb_dump db st -> Proofs.LinkRdbDb.lists_store dbl db ->
+  Model.Handler.handle Model.Location.BV1 RDB1 dbl st q cq enc max = OReply x ->
+  response_refines (view_of (parsed o serial f) n rip cq) (declared_file o serial f) n q
+                   (echo_view (parsed o serial f) n enc cq) max x.
+Proof. exact file_level_client_rdb_v1. Qed.
+Print Assumptions C01_file_level_client_rdb_v1.
+
+Theorem C01_file_level_client_rdb_v2 : forall sort, Proofs.Rearranger.sort_spec sort -> forall o serial f,
+  wf_file o serial f = true -> loc_file_okb o serial f = true -> maps_once (parsed o serial f) ->
+  (forall m, Proofs.Location.wf_subnets (Spec.ClientLocation.declared_subnets (parsed o serial f) m)) ->
+  forall (q : query) (cq : Model.Ecs.query) (n : name) rip (enc : Model.Ecs.ecs -> ecsval) max,
+  wf_name n -> nlen (pack n) <= 255 -> lower_bytes (q_name q) = pack n ->
+  (q_edns q = None \/ q_edns q = Some 0) ->
+  Model.Ecs.q_rip cq = Some rip -> rip < Base.Ip.two128 ->
+  (forall e, Model.Ecs.query_ecs cq = Some e -> Proofs.Ecs.wf_ecs e) ->
+  wf_view (view_of (parsed o serial f) n rip cq) (declared_file o serial f) = true ->
+  forall db st dbl x,
+  kvs_ok (flat_map (recs_of bytes (conv_line o serial false true)) f) ->
+  rdb_compilation bytes (conv_line o serial true true) (accum_rdb sort o serial) [Model.Preproc.feature_kv true] f db ->
+  rdb_dump db st -> Proofs.LinkRdbDb.lists_store dbl db ->
+  Model.Handler.handle Model.Location.BV2 RDB2 dbl st q cq enc max = OReply x ->
+  response_refines (view_of (parsed o serial f) n rip cq) (declared_file o serial f) n q
+                   (echo_view (parsed o serial f) n enc cq) max x.
+Proof. exact file_level_client_rdb_v2. Qed.
+Print Assumptions C01_file_level_client_rdb_v2.
+
+(* the three backends in one statement *)
+Theorem C01_file_level_client : forall sort, Proofs.Rearranger.sort_spec sort -> forall o serial f,
+  wf_file o serial f = true -> loc_file_okb o serial f = true -> maps_once (parsed o serial f) ->
+  (forall m, Proofs.Location.wf_subnets (Spec.ClientLocation.declared_subnets (parsed o serial f) m)) ->
+  subnet_locs_okb o serial f = true ->
+  kvs_ok (flat_map (recs_of bytes (conv_line o serial false false)) f) ->
+  kvs_ok (flat_map (recs_of bytes (conv_line o serial false true)) f) ->
+  forall (q : query) (cq : Model.Ecs.query) (n : name) rip (enc : Model.Ecs.ecs -> ecsval) max x,
+  wf_name n -> nlen (pack n) <= 255 -> lower_bytes (q_name q) = pack n ->
+  (q_edns q = None \/ q_edns q = Some 0) ->
+  Model.Ecs.q_rip cq = Some rip -> rip < Base.Ip.two128 ->
+  (forall e, Model.Ecs.query_ecs cq = Some e -> Proofs.Ecs.wf_ecs e) ->
+  wf_view (view_of (parsed o serial f) n rip cq) (declared_file o serial f) = true ->
+  (forall sep stream kvs st,
+     Permutation stream (records bytes (conv_line o serial false false) (accum_cdb o serial) [Model.Preproc.feature_kv false] f) ->
+     compile_cdb bytes (conv_line o serial false false) f stream = Ok kvs -> (forall k, get st k = vals_of k kvs) ->
+     Model.Handler.handle (Model.Location.BCdb sep) CDB kvs st q cq enc max = OReply x ->
+     response_refines (view_of (parsed o serial f) n rip cq) (declared_file o serial f) n q (echo_view (parsed o serial f) n enc cq) max x) /\
+  (forall db st dbl,
+     rdb_compilation bytes (conv_line o serial true false) (accum_rdb sort o serial) [Model.Preproc.feature_kv false] f db ->
+     rdb_dump db st -> Proofs.LinkRdbDb.lists_store dbl db ->
+     Model.Handler.handle Model.Location.BV1 RDB1 dbl st q cq enc max = OReply x ->
+     response_refines (view_of (parsed o serial f) n rip cq) (declared_file o serial f) n q (echo_view (parsed o serial f) n enc cq) max x) /\
+  (forall db st dbl,
+     rdb_compilation bytes (conv_line o serial true true) (accum_rdb sort o serial) [Model.Preproc.feature_kv true] f db ->
+     rdb_dump db st -> Proofs.LinkRdbDb.lists_store dbl db ->
+     Model.Handler.handle Model.Location.BV2 RDB2 dbl st q cq enc max = OReply x ->
+     response_refines (view_of (parsed o serial f) n rip cq) (declared_file o serial f) n q (echo_view (parsed o serial f) n enc cq) max x).
+Proof.
+  intros sort Hs o serial f WF LOK ONCE Hw LS K1 K2 q cq n rip enc max x Hn Hl Hq He Hr Hlt Hecs V. split; [|split].
+  - intros sep stream kvs st P C G H.
+    exact (file_level_client_cdb o serial f WF LOK ONCE Hw q cq n rip enc max Hn Hl Hq He Hr Hlt Hecs V sep stream kvs st x K1 LS P C G H).
+  - intros db st dbl C D Hls H.
+    exact (file_level_client_rdb_v1 sort Hs o serial f WF LOK ONCE Hw q cq n rip enc max Hn Hl Hq He Hr Hlt Hecs V db st dbl x K1 LS C D Hls H).
+  - intros db st dbl C D Hls H.
+    exact (file_level_client_rdb_v2 sort Hs o serial f WF LOK ONCE Hw q cq n rip enc max Hn Hl Hq He Hr Hlt Hecs V db st dbl x K2 C D Hls H).
+Qed.
+Print Assumptions C01_file_level_client.
+
+(* the spec's location and scope in the vocabulary of the C03 / C10 theorems *)
+Theorem C01_client_view_is_c10_decides : forall rs n rip cq,
+  Spec.ClientLocation.client_view rs n rip (option_map Proofs.ClientSpecLink.ecs_in_of (Model.Ecs.query_ecs cq)) =
+  Proofs.Ecs.decides (file_nets rs) (Spec.ClientLocation.name_map rs 56 n) (Spec.ClientLocation.name_map rs 77 n) cq rip.
+Proof. exact Proofs.ClientSpecLink.client_view_decides. Qed.
+Print Assumptions C01_client_view_is_c10_decides.
+Theorem C01_scope_view_is_c10_scope : forall rs n e,
+  Spec.ClientLocation.scope_view rs n (Proofs.ClientSpecLink.ecs_in_of e) =
+  Proofs.Ecs.expected_scope (file_nets rs) (Spec.ClientLocation.name_map rs 56 n) e.
+Proof. exact Proofs.ClientSpecLink.scope_view_expected. Qed.
+Print Assumptions C01_scope_view_is_c10_scope.
+(* the location named is \000\000 or the location of a subnet line *)
+Theorem C01_client_view_in : forall rs n rip e,
+  Spec.ClientLocation.client_view rs n rip e = (0, 0) \/
+  In (Spec.ClientLocation.client_view rs n rip e) (Proofs.ClientSpecLink.subnet_locs rs).
+Proof. exact Proofs.ClientSpecLink.client_view_in. Qed.
+Print Assumptions C01_client_view_in.
+(* on such a database FindLocation returns exactly that location and that option *)
+Theorem C01_handle_is_serve : forall rs lb b dbl st q cq enc max (n : name) rip,
+  (forall kind, kind = 77 \/ kind = 56 ->
+     Model.Handler.find_map lb dbl [0; kind] (Model.Location.pack_labels n) =
+     Ok (option_map Model.Rearranger.mapid_bytes (Spec.Lpm.map_choice (Spec.ClientLocation.declared_maps rs) kind n))) ->
+  (forall m c, Proofs.Ecs.wf_client c -> exists r, Model.Handler.get_location lb dbl m c = Ok r /\
+     Model.Ecs.hit_of r = Spec.Lpm.lpm (file_nets rs m) (Model.Ecs.cfam c) (Model.Ecs.search_addr true c) (Model.Ecs.eff_plen c)) ->
+  lower_bytes (q_name q) = pack n ->
+  Model.Ecs.q_rip cq = Some rip -> rip < Base.Ip.two128 -> (forall e, Model.Ecs.query_ecs cq = Some e -> Proofs.Ecs.wf_ecs e) ->
+  Model.Handler.handle lb b dbl st q cq enc max = serve b st q (LocOk (view_of rs n rip cq)) (echo_view rs n enc cq) max.
+Proof. exact handle_is_serve. Qed.
+Print Assumptions C01_handle_is_serve.
+
+(* the hypotheses hold and the composed statement is not vacuous (Proofs/ClientExample.v): a twelve-line
+   file - zone example.com; www with an address tagged ab, one tagged cd and an untagged one; resolver map
+   m1 (example.com and, as wildcard map, the names below it) with 10.0.0.0/8 -> ab and nested
+   10.1.0.0/16 -> cd; client-subnet map e1 (names below example.com) with 192.168.0.0/16 -> cd and nested
+   192.168.1.0/24 -> ab - compiled by the builder with v2 keys (24 records; insertion sort as sort.Slice)
+   and as a reversed CDB stream, and served by the handler WITH ITS OWN LOOKUP:
+     resolver 10.1.2.3, no OPT                      -> cd (longest match in m1)    : 10.0.0.3 and the untagged 10.0.0.9
+     resolver 8.8.8.8, ECS 192.168.1.0/24           -> ab (longest match in e1), scope 24 : 10.0.0.2 and 10.0.0.9
+     resolver 10.9.9.9, ECS 172.16.0.0/12           -> no subnet of e1: scope 24 (default), resolver decides: ab
+     resolver 8.8.8.8, no OPT                       -> \000\000 : the untagged 10.0.0.9 only
+   and for every request the reply refines spec_response for client_view *)
+From DnsV Require Import Base.Ip Model.Rearranger Model.Location Model.Ecs Model.Handler Spec.ClientLocation.
+From DnsV Require Import Proofs.Location Proofs.Rearranger Proofs.Ecs Proofs.LinkRdbDb Proofs.ClientSpecLink Proofs.ClientExample.
+Example C01_file_level_client_example :
+  (* the guards on the file *)
+  wf_file y_o 7 y_file = true /\ loc_file_okb y_o 7 y_file = true /\ subnet_locs_okb y_o 7 y_file = true /\
+  maps_once y_rs /\ (forall m, wf_subnets (declared_subnets y_rs m)) /\ sort_spec isort /\
+  kvs_ok (flat_map (recs_of bytes (conv_line y_o 7 false true)) y_file) /\
+  kvs_ok (flat_map (recs_of bytes (conv_line y_o 7 false false)) y_file) /\
+  wf_name y_n /\ lower_bytes y_qname = pack y_n /\
+  (* what the spec reads off the M / 8 / % lines for the four clients *)
+  view_of y_rs y_n (y_ip4 10 1 2 3) y_c1 = [99; 100] /\ view_of y_rs y_n (y_ip4 8 8 8 8) y_c2 = [97; 98] /\
+  view_of y_rs y_n (y_ip4 10 9 9 9) y_c3 = [97; 98] /\ view_of y_rs y_n (y_ip4 8 8 8 8) y_c4 = [0; 0] /\
+  echo_view y_rs y_n y_enc y_c2 = Some [1; 24; 24] /\ echo_view y_rs y_n y_enc y_c3 = Some [1; 12; 24] /\
+  wf_view [99; 100] (declared_file y_o 7 y_file) = true /\ wf_view [97; 98] (declared_file y_o 7 y_file) = true /\
+  wf_view [0; 0] (declared_file y_o 7 y_file) = true /\
+  (* RocksDB, v2 keys, builder: the handler with its own lookup *)
+  (exists db st dbl,
+     compile_builder bytes (conv_line y_o 7 true true) kv_isort 1 2 y_file y_R2 = Ok db /\
+     rdb_dump db st /\ lists_store dbl db /\ (length y_R2 = 24)%nat /\
+     handle BV2 RDB2 dbl st y_q0 y_c1 y_enc 8 = y_reply 1 [(300, 1, [10; 0; 0; 3]); (300, 1, [10; 0; 0; 9])] 2 None /\
+     handle BV2 RDB2 dbl st y_q1 y_c2 y_enc 8 = y_reply 2 [(300, 1, [10; 0; 0; 2]); (300, 1, [10; 0; 0; 9])] 2 (Some (Some [1; 24; 24])) /\
+     handle BV2 RDB2 dbl st y_q1 y_c3 y_enc 8 = y_reply 2 [(300, 1, [10; 0; 0; 2]); (300, 1, [10; 0; 0; 9])] 2 (Some (Some [1; 12; 24])) /\
+     handle BV2 RDB2 dbl st y_q0 y_c4 y_enc 8 = y_reply 1 [(300, 1, [10; 0; 0; 9])] 1 None /\
+     forall q cq n rip enc max x, wf_name n -> nlen (pack n) <= 255 -> lower_bytes (q_name q) = pack n ->
+       (Serve.q_edns q = None \/ Serve.q_edns q = Some 0) -> q_rip cq = Some rip -> rip < two128 ->
+       (forall e, query_ecs cq = Some e -> wf_ecs e) ->
+       wf_view (view_of y_rs n rip cq) (declared_file y_o 7 y_file) = true ->
+       handle BV2 RDB2 dbl st q cq enc max = OReply x ->
+       response_refines (view_of y_rs n rip cq) (declared_file y_o 7 y_file) n q (echo_view y_rs n enc cq) max x) /\
+  (* CDB: the stream reversed, per-family prefix sets *)
+  (let stream := rev y_Rc in
+   compile_cdb bytes (conv_line y_o 7 false false) y_file stream = Ok stream /\
+   handle (BCdb true) CDB stream (store_of stream) y_q1 y_c2 y_enc 8 =
+     y_reply 2 [(300, 1, [10; 0; 0; 2]); (300, 1, [10; 0; 0; 9])] 2 (Some (Some [1; 24; 24])) /\
+   forall q cq n rip enc max x, wf_name n -> nlen (pack n) <= 255 -> lower_bytes (q_name q) = pack n ->
+     (Serve.q_edns q = None \/ Serve.q_edns q = Some 0) -> q_rip cq = Some rip -> rip < two128 ->
+     (forall e, query_ecs cq = Some e -> wf_ecs e) ->
+     wf_view (view_of y_rs n rip cq) (declared_file y_o 7 y_file) = true ->
+     handle (BCdb true) CDB stream (store_of stream) q cq enc max = OReply x ->
+     response_refines (view_of y_rs n rip cq) (declared_file y_o 7 y_file) n q (echo_view y_rs n enc cq) max x).
+Proof. exact client_example. Qed.
+Print Assumptions C01_file_level_client_example.
+
+(* What remains outside C01_file_level_closed / C01_file_level_client (stated, not hidden).
+   * closed here: the accumulator (GAP 1) and the client location (GAP 2) are no longer parameters.
+   * [parse_line] / [convert] (C09), the compilers (C07), Rearrange / FindMap / GetLocationByMap (C03),
+     FindLocation (C10) and serve (C01 / C02) are MODELS; their tie to the Go code is the correspondence run
+     of each property, not a theorem.  sort.Slice is abstract (sort_spec).
+   * [rdb_dump db st], [lists_store dbl db], [get st k = vals_of k kvs]: that the iterators / lookups of the
+     real RocksDB and CDB files yield these two views of one database is C15 / C16.
+   * preprocessed input (dnsrocks-preproc: '!' range-point lines instead of '%' lines) is outside
+     [loc_file_okb]; the link preprocessed file = raw file is C09 x C03 (Proofs/LinkPreprocRearranger.v).
+   * RocksDB and IPv6 subnets of length 1..95 containing ::ffff:0:0 are outside wf_subnets (finding F20; the
+     CDB clause would hold without that conjunct of the guard); BADVERS replies (EDNS version <> 0) are
+     findings F21 / F22 and outside [q_edns q = None \/ q_edns q = Some 0].
+   * inherited from C01_response_is_spec: DS at or below a delegation, order inside sections, the weighted
+     draw (C11), completeness of the additional section of authoritative answers. *)
